@@ -5,6 +5,14 @@ here = os.path.dirname(os.path.dirname(os.path.abspath(__file__)))
 
 # id -> (technique, level text, level note, design ref)
 CHECKS = {
+    "C06": (
+        "Hypothesis-generated feature sets with bin-boundary-biased coordinates; brute-force filter oracle over region()/limit= query forms",
+        "Databases of 3-25 features placed at +-2 of 2^17*8^k bin edges and of 2^29 are queried 12-20 times each through region() (tuple, string, "
+        "Feature, keyword, seqid-less, one-sided forms; strand, featuretype, completely_within) and through limit= of all_features, "
+        "features_of_type, children and parents; every answer must equal the brute-force filter of the generated list (one-sided: boundary features either way).",
+        "Integer coordinates with 1 <= start <= end; brute-force predicates in gfv/props/c06.py.",
+        "DESIGN.md section 4 C06",
+    ),
     "C05": (
         "Hypothesis-generated colliding feature sequences against a sequential reference model of the five strategies (create_db and create_db+update)",
         "2-7 features over colliding keys with pooled columns/attributes/Parent values are imported under each strategy and force_merge_fields subset, "
